@@ -351,4 +351,166 @@ theorem readASN1_sound (s : Bytes) (e : Elem) (h : readASN1 s = some e) :
   | [], h => simp at h
   | [_], h => simp at h
 
+/-! ## INTEGER: two's complement bounds and minimality -/
+
+theorem natOfLE_append (l : Bytes) (x : UInt8) : natOfLE (l ++ [x]) = natOfLE l + 256 ^ l.length * x.toNat := by
+  induction l with
+  | nil => simp [natOfLE]
+  | cons a l ih => simp only [List.cons_append, natOfLE, ih, List.length_cons, Nat.pow_succ]; 
+                   rw [Nat.mul_add, ← Nat.mul_assoc, Nat.mul_comm 256 (256 ^ l.length)]; omega
+
+theorem natOfBE_cons (b : UInt8) (r : Bytes) : natOfBE (b :: r) = b.toNat * 256 ^ r.length + natOfBE r := by
+  simp only [natOfBE, List.reverse_cons, natOfLE_append, List.length_reverse]
+  rw [Nat.mul_comm]; omega
+
+theorem natOfLE_lt (l : Bytes) : natOfLE l < 256 ^ l.length := by
+  induction l with
+  | nil => simp [natOfLE]
+  | cons a l ih =>
+    have := a.toNat_lt
+    simp only [natOfLE, List.length_cons, Nat.pow_succ]; omega
+
+theorem natOfBE_lt (l : Bytes) : natOfBE l < 256 ^ l.length := by
+  have := natOfLE_lt l.reverse
+  simpa [natOfBE] using this
+
+set_option maxRecDepth 100000 in
+theorem neg_bit : ∀ n, n < 256 → ((UInt8.ofNat n &&& 0x80 == 0x80) = decide (128 ≤ n)) := by decide
+
+theorem neg_bit' (b : UInt8) : (b &&& 0x80 == 0x80) = decide (128 ≤ b.toNat) := by
+  obtain ⟨n, hn, rfl⟩ := byte_cases b
+  rw [neg_bit n hn, toNat_ofNat_lt n hn]
+
+theorem pos_bit' (b : UInt8) : (b &&& 0x80 == 0) = decide (b.toNat < 128) := by
+  obtain ⟨n, hn, rfl⟩ := byte_cases b
+  rw [short_bit n hn, toNat_ofNat_lt n hn]
+
+/-- value of `b0 :: rest` with `P = 256^|rest|` -/
+theorem twosVal_cons (b0 : UInt8) (rest : Bytes) :
+    twosVal (b0 :: rest) =
+      (if 128 ≤ b0.toNat then (b0.toNat : Int) - 256 else b0.toNat) * (256 ^ rest.length : Nat) + natOfBE rest := by
+  show (if (b0 &&& 0x80 == 0x80) = true then (natOfBE (b0 :: rest) : Int) - (256 : Int) ^ (b0 :: rest).length
+        else (natOfBE (b0 :: rest) : Int)) = _
+  have hP : ((256 ^ rest.length : Nat) : Int) = (256 : Int) ^ rest.length := by rw [Int.natCast_pow]; rfl
+  rw [neg_bit', natOfBE_cons, List.length_cons, Int.pow_succ, Int.natCast_add, Int.natCast_mul, hP]
+  generalize (256 : Int) ^ rest.length = X
+  generalize ((natOfBE rest : Nat) : Int) = r
+  generalize hb : ((b0.toNat : Nat) : Int) = b
+  have hbb : 128 ≤ b0.toNat ↔ 128 ≤ b := by omega
+  by_cases h : 128 ≤ b0.toNat
+  · rw [if_pos (by simpa using h), if_pos h, Int.sub_mul, Int.mul_comm X 256]; omega
+  · rw [if_neg (by simpa using h), if_neg h]
+
+/-- (A) an n-byte string denotes a value in [-2^(8n-1), 2^(8n-1)) = [-128·256^(n-1), 128·256^(n-1)) -/
+theorem twosVal_range (b0 : UInt8) (rest : Bytes) :
+    -(128 * (256 ^ rest.length : Nat) : Int) ≤ twosVal (b0 :: rest) ∧
+      twosVal (b0 :: rest) < 128 * (256 ^ rest.length : Nat) := by
+  rw [twosVal_cons]
+  have h0 := b0.toNat_lt
+  have hr := natOfBE_lt rest
+  generalize (256 ^ rest.length : Nat) = P at *
+  generalize natOfBE rest = r at *
+  split
+  · rename_i h
+    have : ((b0.toNat : Int) - 256) * (P : Int) ≤ -1 * P := Int.mul_le_mul_of_nonneg_right (by omega) (by omega)
+    have : -128 * (P : Int) ≤ ((b0.toNat : Int) - 256) * (P : Int) := Int.mul_le_mul_of_nonneg_right (by omega) (by omega)
+    omega
+  · rename_i h
+    have : (b0.toNat : Int) * (P : Int) ≤ 127 * P := Int.mul_le_mul_of_nonneg_right (by omega) (by omega)
+    have : 0 * (P : Int) ≤ (b0.toNat : Int) * (P : Int) := Int.mul_le_mul_of_nonneg_right (by omega) (by omega)
+    omega
+
+
+theorem cast_pow_succ (n : Nat) : ((256 ^ (n + 1) : Nat) : Int) = 256 * ((256 ^ n : Nat) : Int) := by
+  rw [Nat.pow_succ, Int.natCast_mul, Int.mul_comm]; rfl
+
+/-- explicit form of the minimality test -/
+theorem checkASN1Integer_cons2 (b0 b1 : UInt8) (rest : Bytes) :
+    checkASN1Integer (b0 :: b1 :: rest) =
+      !((b0 == 0 && decide (b1.toNat < 128)) || (b0 == 0xff && decide (128 ≤ b1.toNat))) := by
+  simp only [checkASN1Integer, pos_bit', neg_bit']
+
+/-- (C) a redundant leading octet can be dropped without changing the value -/
+theorem twosVal_redundant (b0 b1 : UInt8) (rest : Bytes)
+    (h : checkASN1Integer (b0 :: b1 :: rest) = false) :
+    twosVal (b0 :: b1 :: rest) = twosVal (b1 :: rest) := by
+  rw [checkASN1Integer_cons2] at h
+  rw [twosVal_cons b0, twosVal_cons b1, natOfBE_cons, List.length_cons, cast_pow_succ, Int.natCast_add,
+    Int.natCast_mul]
+  generalize ((256 ^ rest.length : Nat) : Int) = Q
+  generalize ((natOfBE rest : Nat) : Int) = r
+  have hb1 := b1.toNat_lt
+  simp only [Bool.not_eq_false', Bool.or_eq_true, Bool.and_eq_true, beq_iff_eq, decide_eq_true_eq] at h
+  rcases h with ⟨h0, h1⟩ | ⟨h0, h1⟩
+  · subst h0
+    rw [if_neg (by decide), if_neg (by omega)]
+    simp
+  · subst h0
+    rw [if_pos (by decide), if_pos h1]
+    have : (255 : UInt8).toNat = 255 := rfl
+    rw [this, Int.sub_mul, Int.sub_mul]
+    generalize ((b1.toNat : Nat) : Int) * Q = X
+    omega
+
+/-- (B) a minimal encoding of ≥ 2 octets denotes a value outside the range of one octet fewer -/
+theorem twosVal_minimal_big (b0 b1 : UInt8) (rest : Bytes)
+    (h : checkASN1Integer (b0 :: b1 :: rest) = true) :
+    128 * ((256 ^ rest.length : Nat) : Int) ≤ twosVal (b0 :: b1 :: rest) ∨
+      twosVal (b0 :: b1 :: rest) < -(128 * ((256 ^ rest.length : Nat) : Int)) := by
+  rw [checkASN1Integer_cons2] at h
+  rw [twosVal_cons b0, natOfBE_cons, List.length_cons, cast_pow_succ, Int.natCast_add, Int.natCast_mul]
+  have hr := natOfBE_lt rest
+  have hQ : 0 < 256 ^ rest.length := Nat.pow_pos (by decide)
+  generalize (256 ^ rest.length : Nat) = Qn at *
+  generalize natOfBE rest = rn at *
+  have hb0 := b0.toNat_lt
+  have hb1 := b1.toNat_lt
+  simp only [Bool.not_eq_true', Bool.or_eq_false_iff, Bool.and_eq_false_iff, beq_eq_false_iff_ne,
+    decide_eq_false_iff_not] at h
+  obtain ⟨hz, hf⟩ := h
+  have e0 : b0 = 0 ↔ b0.toNat = 0 := by
+    constructor
+    · intro h; subst h; rfl
+    · intro h; exact UInt8.toNat_inj.mp (by simpa using h)
+  have ef : b0 = 0xff ↔ b0.toNat = 255 := by
+    constructor
+    · intro h; subst h; rfl
+    · intro h; exact UInt8.toNat_inj.mp (by simpa using h)
+  have hz' : b0.toNat ≠ 0 ∨ ¬ b1.toNat < 128 := by
+    rcases hz with h | h
+    · left; intro h'; exact h (e0.mpr h')
+    · right; exact h
+  have hf' : b0.toNat ≠ 255 ∨ ¬ 128 ≤ b1.toNat := by
+    rcases hf with h | h
+    · left; intro h'; exact h (ef.mpr h')
+    · right; exact h
+  clear hz hf e0 ef
+  generalize b0.toNat = x0 at *
+  generalize b1.toNat = x1 at *
+  have m1 : (0 : Int) ≤ (x1 : Int) * (Qn : Int) := Int.mul_nonneg (by omega) (by omega)
+  have m2 : (x1 : Int) * (Qn : Int) ≤ 255 * (Qn : Int) := Int.mul_le_mul_of_nonneg_right (by omega) (by omega)
+  by_cases hneg : 128 ≤ x0
+  · rw [if_pos hneg]
+    right
+    by_cases h255 : x0 = 255
+    · have : x1 < 128 := by rcases hf' with h | h <;> omega
+      have m3 : (x1 : Int) * (Qn : Int) ≤ 127 * (Qn : Int) := Int.mul_le_mul_of_nonneg_right (by omega) (by omega)
+      subst h255
+      have : (((255 : Nat) : Int) - 256) * (256 * (Qn : Int)) = -256 * Qn := by omega
+      rw [this]; omega
+    · have m4 : ((x0 : Int) - 256) * (256 * (Qn : Int)) ≤ -2 * (256 * (Qn : Int)) :=
+        Int.mul_le_mul_of_nonneg_right (by omega) (by omega)
+      omega
+  · rw [if_neg hneg]
+    left
+    by_cases h0 : x0 = 0
+    · have : 128 ≤ x1 := by rcases hz' with h | h <;> omega
+      have m3 : 128 * (Qn : Int) ≤ (x1 : Int) * (Qn : Int) := Int.mul_le_mul_of_nonneg_right (by omega) (by omega)
+      subst h0
+      simp only [Int.natCast_zero, Int.zero_mul, Int.zero_add]
+      omega
+    · have m4 : 1 * (256 * (Qn : Int)) ≤ (x0 : Int) * (256 * (Qn : Int)) :=
+        Int.mul_le_mul_of_nonneg_right (by omega) (by omega)
+      omega
+
 end XC.C23
